@@ -264,12 +264,19 @@ def bash_words(text, env, cwd):
     return [x.decode("utf-8", "surrogateescape") for x in parts[:-1]]
 
 
+def glob_dir(ctx):
+    """Directory bash runs in: contains files that unquoted glob characters would match."""
+    gdir = os.path.join(ctx.scratch, "glob")
+    if not os.path.isdir(gdir):
+        os.makedirs(gdir)
+        for f in ("a", "b", "ab", "D", "aD"):
+            open(os.path.join(gdir, f), "w").close()
+    return gdir
+
+
 def validate_shsplit(ctx, r, n):
     """Spec validation: every text ShSplit splits must be split identically by real bash."""
-    gdir = os.path.join(ctx.scratch, "glob")
-    os.makedirs(gdir, exist_ok=True)
-    for f in ("a", "b", "ab", "D", "aD"):
-        open(os.path.join(gdir, f), "w").close()
+    gdir = glob_dir(ctx)
     frag = ["'", '"', "\\", "$D", "$OUT", "\"$D\"", "$X", " ", "  ", " \\\n  ", "a", "b", "/", "-o", "'\\''", "\\'", "\\\"", "\\$", "$", "#", "~",
             "=", "\t", "\n", "*", "?", ";", "{", "}", "!", "@", "$RSP_0", "\"$RSP_0\"", "é", "\\\\", "%", "^", ",", "]"]
     vals = ["", "/s", "/s d", " x ", "a\tb", "q'r", 'q"r', "v$D", "x\ny", "  ", "a  b "]
@@ -306,7 +313,7 @@ def inprocess(ctx, r, n, root):
         cases.append((cwd, sd, args))
     dis, impl, model = ctx.differential("c24-emit", lines)
     # oracle on the real code's text: real bash must split it into the expected argument list
-    gdir = os.path.join(ctx.scratch, "glob")
+    gdir = glob_dir(ctx)
     nerr = 0
     for l, o, (cwd, sd, args) in zip(lines, impl, cases):
         if not o.startswith("ok"):
@@ -500,8 +507,8 @@ def end_to_end(ctx, objs):
 
 def run(ctx):
     r = ctx.rng
-    n = 350 if ctx.quick else 6000
-    validate_shsplit(ctx, r.fork(), 1200 if ctx.quick else 20000)
+    n = 250 if ctx.quick else 6000
+    validate_shsplit(ctx, r.fork(), 800 if ctx.quick else 20000)
     inprocess(ctx, r.fork(), n, os.path.join(ctx.scratch, "ip"))
     rsp_and_tok(ctx, r.fork(), n, os.path.join(ctx.scratch, "rsp"))
     objs = build_objs(ctx)
